@@ -27,10 +27,18 @@
      FlattenCopiesTop        tree.flatten works on find_class(copy=True) of the
                              requested class (C05 fix) - only matters as built.
 
-   Library (constant): model Leaf (x; eq Leaf0), model Mid (Leaf l; y; eq
-   Mid0), model Top (extends Mid; z; eq Top0).  Edits through the AST API:
-   add/remove symbol u on Leaf, v on Mid, w on Top, add/remove equation E1 on Leaf, E2 on
-   Top, remove/add class Leaf.                                              *)
+   Library (constant):
+       function f (input u; output v)                          no equations
+       model Leaf (x)                                          NO equation section
+       model Mid  (Leaf l; y; eq Mid0: y = f(l.x))             calls f
+       model Top  (extends Mid; Bare b; z; eq Top0)            NO initial equations
+       model Bare ()                                           NO symbols, NO equations
+   so that every kind of container (symbols, equations, initial equations) is EMPTY in some
+   class when a copy is taken.  Edits through the AST API (which ones are explored is chosen
+   by `Universe`): add/remove symbol u on Leaf, v on Mid, w on Top, s on Bare, t on the
+   function f; add/remove equation E1 on Leaf (E1 calls f), E2 on Top; add/remove initial
+   equation I1 on Top; remove / re-add class Leaf.  The flat model of a class contains the
+   flattened functions it calls, so an edit of f must show up in Mid and Top of the same tree. *)
 EXTENDS Integers, Sequences, FiniteSets, TLC, Json
 
 CONSTANTS DeepCopyRebindsParents, CopyHookBoundToCopy, FlattenCopiesTop,
@@ -46,44 +54,71 @@ VARIABLES val,     \* value semantics: sequence of tree values
 
 vars == <<val, obj, roots, ops, hist, last>>
 
-Classes == {"Leaf", "Mid", "Top"}
-Order   == <<"Leaf", "Mid", "Top">>            \* order in which deepcopy visits tree.classes
-OwnSyms(c) == CASE c = "Leaf" -> {"x"} [] c = "Mid" -> {"y"} [] c = "Top" -> {"z"}
-OwnEqs(c)  == CASE c = "Leaf" -> {"Leaf0"} [] c = "Mid" -> {"Mid0"} [] c = "Top" -> {"Top0"}
+Classes == {"f", "Leaf", "Mid", "Top", "Bare"}
+Order   == <<"f", "Leaf", "Mid", "Top", "Bare">>       \* order in which deepcopy visits tree.classes
+OwnSyms(c) == CASE c = "Leaf" -> {"x"} [] c = "Mid" -> {"y"} [] c = "Top" -> {"z"} [] c = "Bare" -> {} [] c = "f" -> {"u", "v"}
+OwnEqs(c)  == CASE c = "Mid" -> {"Mid0"} [] c = "Top" -> {"Top0"} [] OTHER -> {}
 BaseOf(c)  == IF c = "Top" THEN "Mid" ELSE ""           \* extends clause
-CompOf(c)  == IF c = "Mid" THEN "Leaf" ELSE ""          \* type of component l
-SymEdits == IF Universe = "small" THEN {<<"Leaf", "u">>, <<"Mid", "v">>}
-            ELSE {<<"Leaf", "u">>, <<"Mid", "v">>, <<"Top", "w">>}      \* distinct names: no clashes through inheritance
-EqEdits  == IF Universe = "small" THEN {<<"Leaf", "E1">>} ELSE {<<"Leaf", "E1">>, <<"Top", "E2">>}
-ClassEdits == {"Leaf"}
+CompsOf(c) == CASE c = "Mid" -> {<<"l", "Leaf">>} [] c = "Top" -> {<<"b", "Bare">>} [] OTHER -> {}   \* class-typed components
+Calls(e)   == IF e \in {"Mid0", "E1"} THEN {"f"} ELSE {}   \* user functions called by an equation
+U(sy, eq, ie, cl) == [sym |-> sy, eq |-> eq, ieq |-> ie, cls |-> cl]
+Edits == CASE Universe = "u1" -> U({<<"Leaf", "u">>, <<"Mid", "v">>}, {<<"Leaf", "E1">>}, {}, {"Leaf"})
+           [] Universe = "u2" -> U({<<"Bare", "s">>, <<"f", "t">>}, {<<"Leaf", "E1">>}, {<<"Top", "I1">>}, {})
+           [] Universe = "u3" -> U({<<"Bare", "s">>, <<"f", "t">>}, {}, {}, {})
+           [] Universe = "full" -> U({<<"Leaf", "u">>, <<"Mid", "v">>, <<"Top", "w">>, <<"Bare", "s">>, <<"f", "t">>},
+                                     {<<"Leaf", "E1">>, <<"Top", "E2">>}, {<<"Top", "I1">>}, {"Leaf"})
+SymEdits == Edits.sym        \* distinct names: no clashes through inheritance
+EqEdits  == Edits.eq
+IeqEdits == Edits.ieq
+ClassEdits == Edits.cls
 
-Err(t) == [ok |-> FALSE, err |-> t, syms |-> {}, eqs |-> {}]
-Ok(s, e) == [ok |-> TRUE, err |-> "", syms |-> s, eqs |-> e]
+NoFuncs == [n \in {} |-> {}]
+Err(t) == [ok |-> FALSE, err |-> t, syms |-> {}, eqs |-> {}, ieqs |-> {}, funcs |-> NoFuncs]
+Ok(s, e, ie, fs) == [ok |-> TRUE, err |-> "", syms |-> s, eqs |-> e, ieqs |-> ie, funcs |-> fs]
+Empty == Ok({}, {}, {}, NoFuncs)
+Merge(f, g) == [n \in DOMAIN f \cup DOMAIN g |-> IF n \in DOMAIN g THEN g[n] ELSE f[n]]
+(* combine flattened parts; the first failing part decides *)
+RECURSIVE Join(_, _)
+Join(acc, parts) ==
+    IF parts = <<>> THEN acc
+    ELSE LET h == Head(parts) IN
+         IF ~acc.ok THEN acc ELSE IF ~h.ok THEN h
+         ELSE Join(Ok(acc.syms \cup h.syms, acc.eqs \cup h.eqs, acc.ieqs \cup h.ieqs, Merge(acc.funcs, h.funcs)), Tail(parts))
+Prefix(nm, r) == IF ~r.ok THEN r ELSE Ok({nm \o "." \o x : x \in r.syms}, r.eqs, r.ieqs, r.funcs)
+SetToSeq(S) == LET RECURSIVE F(_)
+                   F(T) == IF T = {} THEN <<>> ELSE LET x == CHOOSE y \in T : TRUE IN <<x>> \o F(T \ {x})
+               IN  F(S)
 
 -----------------------------------------------------------------------------
 (* VALUE SEMANTICS *)
-PristineClass(c) == [here |-> TRUE, syms |-> OwnSyms(c), eqs |-> OwnEqs(c)]
+PristineClass(c) == [here |-> TRUE, syms |-> OwnSyms(c), eqs |-> OwnEqs(c), ieqs |-> {}]
+Gone == [here |-> FALSE, syms |-> {}, eqs |-> {}, ieqs |-> {}]
 PristineVal == [c \in Classes |-> PristineClass(c)]
 
 RECURSIVE FlatV(_, _)
 FlatV(t, c) ==
     IF ~t[c].here THEN Err("ClassNotFoundError")
-    ELSE LET b == IF BaseOf(c) = "" THEN Ok({}, {}) ELSE FlatV(t, BaseOf(c))
-             k == IF CompOf(c) = "" THEN Ok({}, {}) ELSE FlatV(t, CompOf(c))
-         IN  IF ~b.ok THEN b ELSE IF ~k.ok THEN k
-             ELSE Ok(b.syms \cup t[c].syms \cup {"l." \o s : s \in k.syms},
-                     b.eqs \cup t[c].eqs \cup k.eqs)
+    ELSE LET b == IF BaseOf(c) = "" THEN Empty ELSE FlatV(t, BaseOf(c))
+             ks == [k \in DOMAIN SetToSeq(CompsOf(c)) |->
+                       Prefix(SetToSeq(CompsOf(c))[k][1], FlatV(t, SetToSeq(CompsOf(c))[k][2]))]
+             called == UNION {Calls(e) : e \in t[c].eqs}
+             fs == [n \in {m \in called : t[m].here} |-> t[n].syms]      \* an unknown function is taken as builtin
+             own == Ok(t[c].syms, t[c].eqs, t[c].ieqs, fs)
+         IN  Join(b, ks \o <<own>>)
 
-(* which classes' flat model contains class d (itself, through the component type, through extends) *)
-Reaches(c, d) == \/ c = d
-                 \/ c = "Mid" /\ d = "Leaf"
-                 \/ c = "Top" /\ d \in {"Mid", "Leaf"}
+(* the classes whose content the flat model of c contains: itself, the base class, component types,
+   called functions (depends on which equations are there) *)
+RECURSIVE ReachV(_, _)
+ReachV(t, c) ==
+    {c} \cup (IF BaseOf(c) = "" THEN {} ELSE ReachV(t, BaseOf(c)))
+        \cup UNION {ReachV(t, k[2]) : k \in CompsOf(c)}
+        \cup UNION {Calls(e) : e \in t[c].eqs}
 
 -----------------------------------------------------------------------------
 (* POINTER SEMANTICS *)
 NoKids == [n \in {} |-> 0]
-TreeObj(kids, src)   == [kind |-> "tree", name |-> "", syms |-> {}, eqs |-> {}, kids |-> kids, parent |-> 0, src |-> src]
-ClassObj(c, s, e, p, src) == [kind |-> "class", name |-> c, syms |-> s, eqs |-> e, kids |-> NoKids, parent |-> p, src |-> src]
+TreeObj(kids, src)   == [kind |-> "tree", name |-> "", syms |-> {}, eqs |-> {}, ieqs |-> {}, kids |-> kids, parent |-> 0, src |-> src]
+ClassObj(c, s, e, ie, p, src) == [kind |-> "class", name |-> c, syms |-> s, eqs |-> e, ieqs |-> ie, kids |-> NoKids, parent |-> p, src |-> src]
 
 N(o) == Len(o)
 (* Class._find_class: own nested classes, then the parent chain *)
@@ -101,12 +136,15 @@ FlatObj(o, f, top) ==
     LET e == IF top /\ ~FlattenCopiesTop THEN f ELSE o[f].src
         c == o[e].name
         p == o[e].parent
-        bf == IF BaseOf(c) = "" THEN 0 ELSE Find(o, p, BaseOf(c))
-        kf == IF CompOf(c) = "" THEN 0 ELSE Find(o, p, CompOf(c))
-        b == IF BaseOf(c) = "" THEN Ok({}, {}) ELSE IF bf = 0 THEN Err("ClassNotFoundError") ELSE FlatObj(o, bf, FALSE)
-        k == IF CompOf(c) = "" THEN Ok({}, {}) ELSE IF kf = 0 THEN Err("ClassNotFoundError") ELSE FlatObj(o, kf, FALSE)
-    IN  IF ~b.ok THEN b ELSE IF ~k.ok THEN k
-        ELSE Ok(b.syms \cup o[e].syms \cup {"l." \o s : s \in k.syms}, b.eqs \cup o[e].eqs \cup k.eqs)
+        Sub(ty) == LET k == Find(o, p, ty) IN IF k = 0 THEN Err("ClassNotFoundError") ELSE FlatObj(o, k, FALSE)
+        b == IF BaseOf(c) = "" THEN Empty ELSE Sub(BaseOf(c))
+        cs == SetToSeq(CompsOf(c))
+        ks == [k \in DOMAIN cs |-> Prefix(cs[k][1], Sub(cs[k][2]))]
+        called == UNION {Calls(q) : q \in o[e].eqs}
+        (* FunctionExpander: find_class(copy=True) from the instance; not found = builtin function *)
+        fs == [n \in {m \in called : Find(o, p, m) # 0} |-> o[o[Find(o, p, n)].src].syms]
+        own == Ok(o[e].syms, o[e].eqs, o[e].ieqs, fs)
+    IN  Join(b, ks \o <<own>>)
 
 FlatP(o, r, i, c) ==
     IF c \notin DOMAIN o[r[i]].kids THEN Err("ClassNotFoundError")
@@ -121,7 +159,7 @@ CopyTree(o, r, i) ==
             LET sc == o[o[s].kids[ks[j]]].src     \* ... and the same for every child
                 id == n0 + j
                 par == IF DeepCopyRebindsParents /\ o[sc].parent = s THEN n0 ELSE o[sc].parent
-            IN  ClassObj(o[sc].name, o[sc].syms, o[sc].eqs, par,
+            IN  ClassObj(o[sc].name, o[sc].syms, o[sc].eqs, o[sc].ieqs, par,
                          IF CopyHookBoundToCopy THEN id ELSE o[sc].src)
         kids == [c \in {ks[j] : j \in DOMAIN ks} |-> n0 + (CHOOSE j \in DOMAIN ks : ks[j] = c)]
         root == TreeObj(kids, IF CopyHookBoundToCopy THEN n0 ELSE o[s].src)
@@ -131,11 +169,10 @@ HasKid(o, r, i, c) == c \in DOMAIN o[r[i]].kids
 Kid(o, r, i, c) == o[r[i]].kids[c]
 
 -----------------------------------------------------------------------------
+InitObjs == << TreeObj([c \in Classes |-> 1 + (CHOOSE j \in 1..Len(Order) : Order[j] = c)], 1) >>
+            \o [j \in 1..Len(Order) |-> ClassObj(Order[j], OwnSyms(Order[j]), OwnEqs(Order[j]), {}, 1, j + 1)]
 Init == /\ val = <<PristineVal>>
-        /\ obj = << TreeObj([c \in Classes |-> 1 + (CHOOSE j \in 1..3 : Order[j] = c)], 1),
-                    ClassObj("Leaf", OwnSyms("Leaf"), OwnEqs("Leaf"), 1, 2),
-                    ClassObj("Mid", OwnSyms("Mid"), OwnEqs("Mid"), 1, 3),
-                    ClassObj("Top", OwnSyms("Top"), OwnEqs("Top"), 1, 4) >>
+        /\ obj = InitObjs
         /\ roots = <<1>>
         /\ ops = 0
         /\ hist = <<>>
@@ -192,9 +229,24 @@ RemoveEquation(i, c, e) ==
     /\ Finish([act |-> "remove_equation", i |-> i, c |-> c, e |-> e,
                raises |-> ~HasKid(obj, roots, i, c) \/ e \notin obj[Kid(obj, roots, i, c)].eqs])
 
+AddInitialEquation(i, c, e) ==
+    /\ val[i][c].here /\ e \notin val[i][c].ieqs
+    /\ val' = [val EXCEPT ![i][c].ieqs = @ \cup {e}]
+    /\ obj' = IF HasKid(obj, roots, i, c) THEN [obj EXCEPT ![Kid(obj, roots, i, c)].ieqs = @ \cup {e}] ELSE obj
+    /\ UNCHANGED roots
+    /\ Finish([act |-> "add_initial_equation", i |-> i, c |-> c, e |-> e, raises |-> ~HasKid(obj, roots, i, c)])
+
+RemoveInitialEquation(i, c, e) ==
+    /\ val[i][c].here /\ e \in val[i][c].ieqs
+    /\ val' = [val EXCEPT ![i][c].ieqs = @ \ {e}]
+    /\ obj' = IF HasKid(obj, roots, i, c) THEN [obj EXCEPT ![Kid(obj, roots, i, c)].ieqs = @ \ {e}] ELSE obj
+    /\ UNCHANGED roots
+    /\ Finish([act |-> "remove_initial_equation", i |-> i, c |-> c, e |-> e,
+               raises |-> ~HasKid(obj, roots, i, c) \/ e \notin obj[Kid(obj, roots, i, c)].ieqs])
+
 RemoveClass(i, c) ==
     /\ val[i][c].here
-    /\ val' = [val EXCEPT ![i][c] = [here |-> FALSE, syms |-> {}, eqs |-> {}]]
+    /\ val' = [val EXCEPT ![i][c] = Gone]
     /\ obj' = IF HasKid(obj, roots, i, c)
               THEN [obj EXCEPT ![roots[i]].kids = [n \in DOMAIN @ \ {c} |-> @[n]],
                                ![Kid(obj, roots, i, c)].parent = 0]
@@ -208,12 +260,13 @@ AddClass(i, c) ==
     /\ val' = [val EXCEPT ![i][c] = PristineClass(c)]
     /\ LET id == N(obj) + 1 IN
        obj' = [obj EXCEPT ![roots[i]].kids = [n \in DOMAIN @ \cup {c} |-> IF n = c THEN id ELSE @[n]]]
-              \o <<ClassObj(c, OwnSyms(c), OwnEqs(c), roots[i], id)>>
+              \o <<ClassObj(c, OwnSyms(c), OwnEqs(c), {}, roots[i], id)>>
     /\ UNCHANGED roots
     /\ Finish([act |-> "add_class", i |-> i, c |-> c, raises |-> FALSE])
 
 Edit(i) == \/ \E p \in SymEdits : AddSymbol(i, p[1], p[2]) \/ RemoveSymbol(i, p[1], p[2])
            \/ \E p \in EqEdits : AddEquation(i, p[1], p[2]) \/ RemoveEquation(i, p[1], p[2])
+           \/ \E p \in IeqEdits : AddInitialEquation(i, p[1], p[2]) \/ RemoveInitialEquation(i, p[1], p[2])
            \/ \E c \in ClassEdits : AddClass(i, c) \/ RemoveClass(i, c)
 
 Next == /\ ops < MaxOps
@@ -239,7 +292,7 @@ Independence ==
     [][ last'.act \notin {"init", "deepcopy"} =>
           /\ \A j \in DOMAIN roots : j # last'.i =>
                 \A c \in Classes : FlatP(obj', roots', j, c) = FlatP(obj, roots, j, c)
-          /\ \A c \in Classes : Reaches(c, last'.c)
+          /\ \A c \in Classes : last'.c \in ReachV(val[last'.i], c) \cup ReachV(val'[last'.i], c)
                                   /\ (FlatP(obj, roots, last'.i, c).ok \/ FlatP(obj', roots', last'.i, c).ok) =>
                 FlatP(obj', roots', last'.i, c) # FlatP(obj, roots, last'.i, c)
       ]_vars
